@@ -8,10 +8,11 @@ package main
 import (
 	"fmt"
 	"go/ast"
-	"go/types"
 	goparser "go/parser"
 	"go/token"
+	"go/types"
 	"math/big"
+	"os"
 	"sort"
 	"strconv"
 	"strings"
@@ -105,6 +106,9 @@ func prepareFragment(t Text) *Fragment {
 	}
 	body := strings.Join(lines, "\n")
 	fr.Src = body
+	if os.Getenv("GOVC_DEBUG_FRAG") != "" {
+		fmt.Fprintf(os.Stderr, "FRAGMENT<<%s>>\n", body)
+	}
 	if c, ok := fragCache[body]; ok {
 		cp := *c
 		cp.Holes = fr.Holes
